@@ -13,6 +13,7 @@ import itertools
 import z3
 
 MAX_ROUNDS = 12
+TIME_BUDGET_S = 20
 
 
 def nnf(assertions):
@@ -106,6 +107,7 @@ class Instantiator:
         self.n_inst = 0
         self.offsets = False
         self.base_terms = set()
+        self.truncated = False
 
     # ---- arrays known equal (a == b facts) share their read sets
     def find(self, r):
@@ -234,8 +236,10 @@ class Instantiator:
                 f = self.instances.get(key)
                 if f is None:
                     self.n_inst += 1
-                    if self.n_inst > 60000:
-                        raise OverflowError("instantiation budget exceeded")
+                    if self.n_inst > 20000:
+                        self.n_inst -= 1
+                        self.truncated = True
+                        continue          # budget reached: a subset of the instances is still sound
                     # substitute_vars: i-th argument replaces de Bruijn index i
                     f0 = z3.substitute_vars(body, *[t for _, t in combo])
                     self.instances[key] = f0
@@ -256,9 +260,14 @@ class Instantiator:
         result = []
         rounds = 0
         last = -1
+        import time as _t
+        t0 = _t.time()
         while rounds < MAX_ROUNDS:
             rounds += 1
             result = [z3.simplify(self.inst(q, (qi,))) for qi, q in enumerate(self.quant)]
+            if _t.time() - t0 > TIME_BUDGET_S:
+                self.truncated = True       # keep what we have: a subset of the instances is still sound
+                break
             for r in result:
                 self.scan(r)
             total = sum(len(d) for d in self.reads.values()) + sum(len(d) for d in self.sort_terms.values())
